@@ -402,7 +402,7 @@ Definition vi_motion (b : buf) (rows top : Z) (cl : chr) (cc : N) (pcol0 : Z) (h
       | Klbrace => ok (iter_break n (fun p => Some (false, lbuf_paragraphbeg b (-1) (fst p))) (row, off))
       | Krbrace => ok (iter_break n (fun p => Some (false, lbuf_paragraphbeg b 1 (fst p))) (row, off))
       | K0 => MvOk row 0 cl cc pcol0
-      | Kcaret => MvOk row (lbuf_indents b row) cl cc pcol0
+      | Kcaret => MvOk row (Z.min (lbuf_indents b row) (lbuf_eol b row)) cl cc pcol0   (* not past the terminator (repo 27e5b4d) *)
       | Kdollar => MvOk row (lbuf_eol b row) cl cc pcol0
       | Kbar => MvOk row (vi_col2off b row (cnt - 1)) cl cc (cnt - 1)
       | Kspace => ok (iter_break n (vi_nextoff b 1) (row, off))
